@@ -217,3 +217,54 @@ Proof. exact (bs_new inv builder_sound true [4]). Qed.
    (C13_merger_circuit_sorts for the padded up-then-down vector, C13_sorter_circuit_sorts for
    the flag sort) are the lemmas those proofs would use.
    GOAL (unbounded network theorems): see the end of Sort/ZeroOne.v. *)
+
+(* ------------------------------------------------------------------ WITHOUT LENGTH BOUNDS
+   (Sort/SortUnbounded.v, SortUnboundedHoare.v): the 0/1 lemmas "the bitonic merger sorts every
+   1^a 0^b 1^c of any length and every 0^a 1^b 0^c of a power-of-two length" and "the bitonic
+   sorter sorts every 0/1 sequence" are proved by induction over the recursions of Sort.v (the
+   arbitrary-length variant: the split point is the largest power of two below n, the lower part
+   may have either shape, the upper part is down-then-up again), instead of by enumeration; the
+   zero-one principle and the permutation lemmas lift them to keys, elements and wires.  The
+   bounded statements above are kept for comparison; these supersede them ("this holds for all
+   array lengths (1, non powers of two) and element widths"). *)
+From GV Require Sort.SortUnbounded Sort.SortUnboundedHoare.
+
+Theorem C13_unbounded_merger_sorts_up_down : forall bits (v : list elem) k,
+  length v = (2 ^ k)%nat -> up_then_down (map (key bits) v) ->
+  sortedN (map (key bits) (bitonic_merger (gt_key bits) true v)) = true /\
+  Permutation (bitonic_merger (gt_key bits) true v) v.
+Proof. exact SortUnbounded.merger_elems_up_down. Qed.
+Print Assumptions C13_unbounded_merger_sorts_up_down.
+
+Theorem C13_unbounded_merger_sorts_down_up : forall bits (v : list elem),
+  down_then_up (map (key bits) v) ->
+  sortedN (map (key bits) (bitonic_merger (gt_key bits) true v)) = true /\
+  Permutation (bitonic_merger (gt_key bits) true v) v.
+Proof. exact SortUnbounded.merger_elems_down_up. Qed.
+Print Assumptions C13_unbounded_merger_sorts_down_up.
+
+Theorem C13_unbounded_sorter_sorts : forall bits (v : list elem),
+  sortedN (map (key bits) (bitonic_sorter (gt_key bits) v)) = true /\
+  Permutation (bitonic_sorter (gt_key bits) v) v.
+Proof. exact SortUnbounded.sorter_elems. Qed.
+Print Assumptions C13_unbounded_sorter_sorts.
+
+Theorem C13_unbounded_merger_circuit_sorts : forall bits L b v k,
+  inv b -> elems_ok b L v -> (bits <= L)%nat -> length v = (2 ^ k)%nat ->
+  exists v' b', push_bitonic_merger (S (length v)) b bits true v = Ok (v', b') /\ inv b' /\ ext b b' /\
+    elems_ok b' L v' /\ length v' = length v /\
+    forall inp, ins_ok b inp -> up_then_down (map (key bits) (densl inp b v)) ->
+      sortedN (map (key bits) (densl inp b' v')) = true /\
+      Permutation (densl inp b' v') (densl inp b v).
+Proof. exact SortUnboundedHoare.C13_merger_circuit_sorts_all. Qed.
+Print Assumptions C13_unbounded_merger_circuit_sorts.
+
+Theorem C13_unbounded_sorter_circuit_sorts : forall bits L b v,
+  inv b -> elems_ok b L v -> (bits <= L)%nat ->
+  exists v' b', push_bitonic_sorter b bits v = Ok (v', b') /\ inv b' /\ ext b b' /\
+    elems_ok b' L v' /\ length v' = length v /\
+    forall inp, ins_ok b inp ->
+      sortedN (map (key bits) (densl inp b' v')) = true /\
+      Permutation (densl inp b' v') (densl inp b v).
+Proof. exact SortUnboundedHoare.C13_sorter_circuit_sorts_all. Qed.
+Print Assumptions C13_unbounded_sorter_circuit_sorts.
